@@ -75,8 +75,8 @@ PROPS = {
     },
     "C18": {
         "level": "proof",
-        "lean_modules": ["Astria.Ledger.Model", "Astria.Ledger.Conservation", "Astria.Ledger.Theorems", "Astria.Properties.C18"],
-        "theorems": ["Astria.C18_recv_all_or_nothing", "Astria.C18_release_bounded", "Astria.C18_recv_exact",
+        "lean_modules": ["Astria.Ledger.Model", "Astria.Ledger.Conservation", "Astria.Ledger.Theorems", "Astria.Ledger.Escrow", "Astria.Properties.C18"],
+        "theorems": ["Astria.C18_recv_all_or_nothing", "Astria.C18_release_bounded", "Astria.C18_recv_exact", "Astria.C18_escrow_identity",
                      "Astria.C18_original_counterexample"],
         "harnesses": ["ledger"],
         "monitors": ["recv_all_or_nothing", "escrow_identity", "conservation", "dump_parse"],
@@ -85,8 +85,7 @@ PROPS = {
         "rule": _LEDGER_RULE + ". non-trivial = a packet handler call or a successful ICS20 withdrawal",
         "trusted_base": _TRUSTED,
         "assumptions": _COMMON_ASSUMPTIONS + [
-            "the escrow identity (escrow = sent - returned) is evaluated by the monitor over every generated history; the theorem "
-            "side proves the per-step facts (release bounded and exact, receive all-or-nothing, exact totals)"],
+            "the escrow identity is proved for all histories (C18_escrow_identity) and additionally evaluated by the monitor on the implementation's dumps"],
         "explanation": "theorems: error-acknowledged receive leaves the state untouched; release from escrow bounded; exact totals",
     },
 }
